@@ -120,7 +120,7 @@ def extend(pid, ctx, rep):
         sys.path.insert(0, os.path.join(os.path.dirname(os.path.dirname(os.path.abspath(__file__)))))
         from selftest.run import battery
         if os.path.realpath(ctx.root) == "/repo":
-            res = battery(only=pid, jobs=16)
+            res = battery(only=pid, jobs=16, refactorings=False)      # seeded changes, hand controls and twins of this property
             info["selftest"] = {"counts": res["counts"], "failed": res["failed"], "inapplicable": res["inapplicable"],
                                 "seeded": res["seeded"], "twins_noisy": {k: v["noisy"] for k, v in res["twins"].items() if not v["silent"]}}
             for f in res["failed"]:
